@@ -25,6 +25,7 @@ CORE_ALL3 = R("core_all3", "core_all3.cfg",
                           "wrap", "unwrap", "elide", "elide_set", "compress", "encrypt_subject", "decrypt_subject",
                           "encode_decode"])
 CORE_Q = R("core_q", "core_q.cfg", expect_ops=["add_assertion_po", "replace_assertion", "assertion_with_digest"])
+CORE_T = R("core_t", "core_t.cfg", rounds=3)
 OBS_Q = R("obscure_q", "obscure_q.cfg", expect_ops=["build", "elide_set", "compress", "encrypt"])
 OBS_Q2 = R("obscure_q2", "obscure_q2.cfg", expect_ops=["build", "elide_set", "unelide"])
 
@@ -41,7 +42,7 @@ PLAN = {
     "C01": dict(
         rule="every transition TLC explores in the bounded machine (all call sequences up to the depth bound over the listed action families, 2 registers, atoms a1,a2 + known value 1, plus every clear shape of <= 5 elements as input to the obscuring calls) is executed against the real library in several concretisation rounds (atoms -> typed values of every leaf CBOR type); the digest of the result and of every element of it must equal SHA-256 evaluated from the specification's digest term. non-trivial = distinct (call, expected result) pairs whose result has >= 2 elements or is an error",
         quick=[CORE_ALL3, OBS_Q],
-        thorough=[CORE_ALL3, CORE_Q, OBS_Q, OBS_Q2],
+        thorough=[CORE_ALL3, CORE_T, OBS_Q, OBS_Q2],
     ),
     "C02": dict(
         rule="every shape of <= 5 elements x every target subset (<= 3 digests incl. an absent one) x both modes x {elide, encrypt, compress} and the whole-envelope calls, then a second obscuring call on the result; digests at every surviving position compared with the specification's terms",
@@ -54,7 +55,7 @@ PLAN = {
     "C04": dict(
         rule="all mutating action families from the empty register file, depth <= 3 (all families) and <= 4 (construct/assertions/wrap); serialized bytes of every result must equal the evaluated wire term whose node arrays are sorted by the real digest bytes",
         quick=[CORE_ALL3, TWIN_Q],
-        thorough=[CORE_ALL3, CORE_Q, TWIN_Q],
+        thorough=[CORE_ALL3, CORE_T, TWIN_Q],
     ),
     "C05": dict(
         rule="encode->decode (bytes, CBOR value and UR string variants) of every envelope reachable in the bounded machine; decoded projection identical and re-encoding byte-identical",
@@ -63,7 +64,7 @@ PLAN = {
     "C07": dict(
         rule="all insertion sequences of the bounded machine; results compared with the order-free (set based) specification term, byte for byte",
         quick=[CORE_Q, TWIN_Q],
-        thorough=[CORE_Q, CORE_ALL3, TWIN_Q],
+        thorough=[CORE_T, CORE_ALL3, TWIN_Q],
     ),
     "C08": dict(
         rule="every shape (<= 4 elements, nodes of 5) x keys {k1,k2} x encrypt_subject / encrypt / elide_set(Encrypt), then a key-holding adversary (forge_encrypted: content vs declared digest mismatch for every register pair; tamper: ciphertext / nonce / tag / aad, random bit per round) or add_assertion / second encryption, then decrypt_subject / decrypt with each key",
